@@ -21,3 +21,4 @@ for (l1, tier) in [(3, 'qt'), (2, 'qt'), (1, 'qt'), (4, 't')]:
                          desc='Polygon uses signed delta, open end types |delta|; 2-point Joined becomes Square/Round-capped open path; single points become circle / ceil(|delta|) square or are skipped below 1'))
 OBLIGATIONS.append(O('C07.e-offsetopenpath-sequence', 'off_dispatch.cpp', 'harness_offsetopenpath', replace={'Clipper2Lib::ClipperOffset::DoSquare(': 'stub_ev_square', 'Clipper2Lib::ClipperOffset::DoRound(': 'stub_ev_round', 'Clipper2Lib::ClipperOffset::DoBevel(': 'stub_ev_bevel', 'Clipper2Lib::ClipperOffset::OffsetPoint(': 'stub_ev_offsetpoint'}, unwind=8, flags=['--slice-formula'], timeout=600, bound='open path of 4 vertices, arbitrary finite normals, delta in [0.5,1e6], end types Butt/Square/Round, all join types', desc='OffsetOpenPath: start cap, left side forward, normals reversed, end cap, right side backward; Butt = bevel cap, Round = half circle, Square = square cap; one path appended'))
 OBLIGATIONS.append(O('C07.e-offsetopenjoined-sequence', 'off_dispatch.cpp', 'harness_offsetopenjoined', replace={'Clipper2Lib::ClipperOffset::OffsetPoint(': 'stub_jev_offsetpoint'}, unwind=8, flags=['--slice-formula'], timeout=600, bound='open path of 3 vertices, arbitrary finite normals, delta in [0.5,1e6], all join types', desc='OffsetOpenJoined: polygon walk of the path (every vertex once with its cyclic predecessor), then of the reversed path with normals (-n1,-n0,-n2); two paths appended'))
+OBLIGATIONS.append(O('C07.e-butt-cap-points', 'off_dispatch.cpp', 'harness_join_geometry', defs=['JGEOM=1'], unwind=8, flags=['--slice-formula'], backend=['sat', 'cadical', 'kissat'], timeout=600, bound='normals from 8 exact directions, delta in 5*{1,-1,2,25,-200,100000}', desc='butt cap: exactly the points end vertex -/+ |delta|*normal (integer oracle)'))
